@@ -2,6 +2,7 @@
   C18 — EFI memory-map iteration honours descriptor stride, count and bounds.
   `T` is the permitted extent of the tag (`roundUp8 size` bytes), `v.n = size − 16` the map length `L`.
 -/
+import Mb2.Props.FnsTblFixed
 import Mb2.Props.FnsTblEfi
 import Mb2.Props.FnsGetters
 import Mb2.Props.FnsDstMbi
